@@ -11,6 +11,7 @@ unchanged.
 code -> spec: random deeper trees (two names, depth 4-5) are run and their reader logs validated by
 TLC (spec/Trace_C07.tla) against the law and the mechanism.
 """
+import collections
 import json
 import random
 import zlib
@@ -48,6 +49,10 @@ def same_val(mv, ov):
 
 def run_tree(tree, caller, flavour='vars'):
     scope = {'x': CALLER} if caller else None
+    if caller and flavour == 'chainscope':
+        # the caller passes a layered mapping: the first layer shadows the later ones
+        scope = collections.ChainMap({'x': CALLER}, {'x': 'shadowed-default', 'unused': 1})
+        flavour = 'vars'
     before = dict(scope) if scope else None
     o1 = frames.execute(tree, [], caller_scope=scope, flavour=flavour, hook=(flavour == 'vars'))
     log1 = [dict(p=e['p'], v=fix(e['v'])) for e in o1['log']]
@@ -88,6 +93,8 @@ def worker(states):
         # of Iter().first(key) (a spec evaluated under the scope of the position it stands at)
         if has_kind(tree, 'read') and zlib.crc32(json.dumps(tree, sort_keys=True).encode()) % 4 == 0:
             one_case(out, tree, run, caller, 'firstkey')
+        if caller and zlib.crc32(json.dumps(tree, sort_keys=True).encode()) % 2 == 1:
+            one_case(out, tree, run, caller, 'chainscope')
     return out
 
 
